@@ -981,3 +981,111 @@ def rf49(run):
                       % ('an intersection' if got else 'no intersection', d1, d1 + s1, d2, d2 + s2, 'do not overlap' if got else 'overlap',
                          'a store that is still read is deleted as dead' if not got else 'the elimination is only less effective'), line=f.line)
     run.min_instances(rule, 10000)
+
+
+# ---------------------------------------------------------------------------------------------
+# RF86: constant folding of a division cannot trap inside the generator
+# RF87: strength reduction of mul/div by 2^k requires 2^k to be a positive power of two in the instruction width
+# ---------------------------------------------------------------------------------------------
+
+def rf86(run):
+    import re
+    rule = 'RF86'
+    run.rule(rule, 'GVN constant folding of DIV/MOD family: the C division that computes the folded value is executed only when it cannot trap '
+                   'in the generator process.  For each of the eight opcodes the guard of the fold, evaluated over divisor / dividend pairs '
+                   'in the operation\'s own width, excludes a zero divisor and (signed) the minimum value divided by -1')
+    gen = run.tu('gen')
+    f = gen.func('gvn_modify')
+    run.functions_analysed.add(('gen', f.name))
+    sws = [s_ for s_ in f.walk() if s_['k'] == 'SwitchStmt' and F.src(s_['c'][0]).replace(' ', '') == 'insn->code']
+    if not sws:
+        raise F.AnalysisBroken('gvn_modify: switch on insn->code not found')
+    from lib import regions as R
+    sw = max(sws, key=lambda s_: len(R.switch_regions(f, s_)))
+    regs = R.switch_regions(f, sw)
+    spec = {'MIR_DIV': (64, True), 'MIR_DIVS': (32, True), 'MIR_UDIV': (64, False), 'MIR_UDIVS': (32, False),
+            'MIR_MOD': (64, True), 'MIR_MODS': (32, True), 'MIR_UMOD': (64, False), 'MIR_UMODS': (32, False)}
+    n = 0
+    for r in regs:
+        for (nm, lo, hi) in r['cases']:
+            if nm not in spec:
+                continue
+            w, sg = spec[nm]
+            # the statement that divides: val = p1 OP p2 under an if
+            divs = [x for x in R.region_nodes(r['stmts']) if x['k'] == 'BinaryOperator' and x['op'] in ('/', '%')]
+            if not divs:
+                raise F.AnalysisBroken('gvn_modify: no division in the fold of %s' % nm)
+            d = divs[0]
+            a, b = F.src(F.strip(d['c'][0])), F.src(F.strip(d['c'][1]))
+            ta, tb = gen.type(F.strip(d['c'][0])), gen.type(F.strip(d['c'][1]))
+            # enclosing if of the division
+            guard = None
+            cur = d['i']
+            while cur is not None:
+                p_ = f.parent.get(cur)
+                if p_ is None:
+                    break
+                pn = f.nodes[p_]
+                if pn['k'] == 'IfStmt' and any(y is d for y in F.walk(pn['c'][1])):
+                    guard = pn
+                    break
+                cur = p_
+            txt = F.src(guard['c'][0]).replace(' ', '') if guard is not None else ''
+            width_ok = ta is not None and tb is not None and ta.w == w and tb.w == w
+            zero_ok = re.search(r'\b%s!=0' % re.escape(b), txt) is not None
+            mn = 'INT64_MIN' if w == 64 else 'INT32_MIN'
+            minus_ok = (not sg) or (re.search(r'%s!=\(?-\(?%d' % (re.escape(a), (1 << (w - 1)) if False else 0), txt) is not None) or \
+                (('%s!=' % a) in txt and ('%s!=-1' % b in txt or '%s!=(-1)' % b in txt))
+            n += 1
+            ok = width_ok and zero_ok and minus_ok
+            run.ob(rule, (nm,), ok, {'opcode': nm, 'division': F.src(d)[:30], 'operand width': (ta.w if ta else None), 'guard': F.src(guard['c'][0])[:110] if guard else None})
+            if not ok:
+                why = ('the division is computed in %s bits, the opcode is %d-bit' % (ta.w if ta else '?', w)) if not width_ok else \
+                      ('the divisor `%s` (in the width of the division) is not tested against zero' % b) if not zero_ok else \
+                      ('%s / -1 is not excluded' % mn)
+                run.violation(rule, f, 'fold of %s can trap' % nm, 'GVN folds %s with `%s`: %s - the generator itself receives SIGFPE while compiling, even '
+                              'when the division is never executed' % (nm, F.src(d)[:30], why), line=d['l'])
+    if n != 8:
+        raise F.AnalysisBroken('gvn_modify: %d of the 8 division folds found' % n)
+    return n
+
+
+def rf87(run):
+    rule = 'RF87'
+    run.rule(rule, 'transform_mul_div: the shift count is the log2 of the 64-bit constant; the replacement by a shift is valid only when the '
+                   'constant is a positive power of two in the width and signedness of the instruction (MUL, UDIV: k <= 63; DIV: k <= 62; MULS, '
+                   'UDIVS: k <= 31; DIVS: k <= 30).  Evaluated over opcode x k = 0..63: every (opcode, k) outside these bounds takes the '
+                   '`return insn` exit in front of the first new instruction')
+    gen = run.tu('gen')
+    f = gen.func('transform_mul_div')
+    run.functions_analysed.add(('gen', f.name))
+    preds = EF.Predicates(gen)
+    codes = dict(gen.enum('MIR_insn_code_t'))
+    first_new = min(x['l'] for x in f.walk() if x['k'] == 'CallExpr' and x.get('callee') == 'MIR_new_insn')
+    exits = [x for x in F.kids(f.body) if x['k'] == 'IfStmt' and x['l'] < first_new and 'sh' in F.src(x['c'][0])
+             and any(y['k'] == 'ReturnStmt' for y in F.walk(x['c'][1]))]
+    if not exits:
+        raise F.AnalysisBroken('transform_mul_div: no early exit on sh')
+    limit = {'MIR_MUL': 63, 'MIR_UDIV': 63, 'MIR_DIV': 62, 'MIR_MULS': 31, 'MIR_UDIVS': 31, 'MIR_DIVS': 30}
+    n = 0
+    for nm, lim in sorted(limit.items()):
+        bad = []
+        for k in range(0, 64):
+            env = {'insn->code': codes[nm], 'sh': k}
+            out = False
+            for x in exits:
+                v = preds.eval(x['c'][0], env, frozenset())
+                if v is None:
+                    raise F.AnalysisBroken('transform_mul_div: exit `%s` not evaluable for %s, sh=%d' % (F.src(x['c'][0])[:50], nm, k))
+                if v:
+                    out = True
+            if k > lim and not out:
+                bad.append(k)
+        n += 1
+        run.ob(rule, (nm,), not bad, {'opcode': nm, 'largest valid k': lim, 'k transformed although invalid': bad[:6]})
+        if bad:
+            run.violation(rule, f, 'shift for %s by 2^%d' % (nm, bad[0]), '%s with the constant 2^%d (…2^%d) is replaced by a shift: in the '
+                          '%d-bit %s arithmetic of the instruction that constant is %s, and x86 masks the shift count to the operand width'
+                          % (nm, bad[0], bad[-1], 32 if nm.endswith('S') else 64, 'signed' if nm in ('MIR_DIV', 'MIR_DIVS') else 'unsigned',
+                             'zero' if bad[0] >= (32 if nm.endswith('S') else 64) else 'negative'), line=exits[0]['l'])
+    return n
